@@ -107,6 +107,11 @@ def _work(job):
     except Exception:
         r = {"machinery_error": traceback.format_exc()}
     r["_t"] = time.time() - t0
+    if ops.API_COVER and _ctx is not None:
+        # which entry points of the real library this job drove (merged into the evidence by finish())
+        with open(os.path.join(os.path.dirname(_ctx.dir), "apicover.%d" % os.getpid()), "a") as fh:
+            fh.write("\n".join(sorted(ops.API_COVER)) + "\n")
+        ops.API_COVER.clear()
     return r
 
 
@@ -289,6 +294,19 @@ def finish(prop, tier, agg, merr, wall, *, level, rule, technique, assumptions, 
     if explanation:
         cov["explanation"] = explanation
     cov.update(agg["extra"])
+    api = set(ops.API_COVER)
+    if _base is not None and os.path.isdir(_base):
+        for fn_ in os.listdir(_base):
+            if fn_.startswith("apicover."):
+                with open(os.path.join(_base, fn_)) as fh:
+                    api |= set(l.strip() for l in fh if l.strip())
+                os.unlink(os.path.join(_base, fn_))
+    if api:
+        per = {}
+        for a in api:
+            fl, _, op = a.partition(":")
+            per.setdefault(op, []).append(fl)
+        cov["api_calls_exercised"] = {op: "".join(sorted(f[0] for f in fls)) for op, fls in sorted(per.items())}
     if extra_cov:
         cov.update(extra_cov)
     ev = {
